@@ -15,7 +15,7 @@
 
    Processes
      loop          the thread inside Manager.run()
-     f \in Firers  foreign threads, each calls fire() NFires times
+     f \in Firers  foreign threads, each calls fire() quota[f] times
      "stop"        (WithStop) a foreign thread that calls Manager.stop() once
                    every event of the firers has been dispatched: this is how
                    the harness ends a real run
@@ -40,25 +40,31 @@
                             have returned from fire() (ghost)
 
    Time.  time_left is -1 (unlimited), 0, or T (some positive time; only when
-   Timer = TRUE, standing for a Timer or any other generate_events handler that
+   timer = TRUE, standing for a Timer or any other generate_events handler that
    lowers it).  A timed wait may time out only while no event whose fire() has
    returned is queued (TimeoutOK): a wake-up that needs a timeout - the
    fallback's 10000 s re-check, a poll timeout - counts as no wake-up. *)
 EXTENDS Integers, Sequences, FiniteSets, TLC
 
 CONSTANTS Firers,     \* set of strings, e.g. {"f1", "f2"}
-          NFires,     \* fires per firer
-          Variant,    \* "fallback" | "poller"
+          Variants,   \* subset of {"fallback", "poller"}: the idle handler (chosen in the initial state)
+          Timers,     \* subset of BOOLEAN: may another generate_events handler lower time_left to T?
+          Quotas,     \* set of functions [Firers -> Nat]: how many times each firer calls fire()
+          NFiresSet,  \* (for Quotas <- UniformQuotas) the numbers of fires per firer
+          MaxFires,   \* an upper bound of every quota (quantifier bound of the properties)
           Mutant,     \* "none" or the name of a deliberately broken algorithm (teeth)
-          Timer,      \* BOOLEAN: another generate_events handler may lower time_left to T
           WithStop    \* BOOLEAN: model Manager.stop() from a foreign thread at the end
+
+(* One run of TLC covers every combination of idle handler, timer and quota
+   allowed by the configuration: they are variables that never change. *)
+UniformQuotas == {[f \in Firers |-> k] : k \in NFiresSet}
+AllQuotas == [Firers -> 0..MaxFires]
 
 None == 2             \* handling: nothing
 Ev   == 3             \* handling: an ordinary event
 T    == 1             \* the positive time_left
 Stoppers == IF WithStop THEN {"stop"} ELSE {}
 Threads  == Firers \cup Stoppers
-Quota(f) == IF f \in Firers THEN NFires ELSE 1
 Range(s) == {s[i] : i \in 1..Len(s)}
 
 Mutants == {"none",
@@ -70,12 +76,14 @@ Mutants == {"none",
             "resume_before_assign", \* reduce_time_left tests _time_left == 0 before assigning
             "no_arm_lock"}          \* the dispatcher arms generate_events without the lock
 
-ASSUME /\ Variant \in {"fallback", "poller"} /\ Mutant \in Mutants
-       /\ Timer \in BOOLEAN /\ WithStop \in BOOLEAN /\ NFires \in Nat
+ASSUME /\ Variants \subseteq {"fallback", "poller"} /\ Mutant \in Mutants
+       /\ Timers \subseteq BOOLEAN /\ WithStop \in BOOLEAN /\ MaxFires \in Nat
+       /\ \A q \in Quotas : \A f \in Firers : q[f] \in 0..MaxFires
        /\ "loop" \notin Firers /\ "stop" \notin Firers /\ "ge" \notin Firers /\ "none" \notin Firers
 
 (* --algorithm Wakeup {
 variables
+  variant \in Variants, timer \in Timers, quota \in Quotas,
   lockOwner = "none", lockDepth = 0,
   running = TRUE,
   handling = None,
@@ -95,8 +103,9 @@ define {
   Returned(e) == returned[e[1]] >= e[2]
   (* a timed wait may end by its timeout only if that does not stand in for a wake-up *)
   TimeoutOK == \A e \in Queued : Foreign(e) => ~Returned(e)
-  AllDispatched == \A f \in Firers : /\ returned[f] = NFires
-                                     /\ \A k \in 1..NFires : <<f, k>> \in Range(dispatched)
+  Quota(f) == IF f \in Firers THEN quota[f] ELSE 1
+  AllDispatched == \A f \in Firers : /\ returned[f] = quota[f]
+                                     /\ \A k \in 1..quota[f] : <<f, k>> \in Range(dispatched)
   InFlight(f) == appended[f] > returned[f]
 }
 
@@ -108,7 +117,7 @@ macro Release() {
   lockOwner := IF lockDepth = 1 THEN "none" ELSE lockOwner || lockDepth := lockDepth - 1;
 }
 macro SetFlag() {
-  flag := IF Variant = "fallback" THEN 1 ELSE flag + 1;
+  flag := IF variant = "fallback" THEN 1 ELSE flag + 1;
 }
 
 (* generate_events.reduce_time_left(v) on instance ri, by any thread *)
@@ -157,7 +166,7 @@ D_set:  handling := Ev;                               \* self._currently_handlin
         if (Mutant = "no_arm_lock") {
 M_set:    handling := g;
 M_test:   if (rem > 0 \/ QLen > 0 \/ ~running) { call reduce(g, 0) };
-M_end:    if (Timer) { goto H_tim } else { goto H_idle };
+M_end:    if (timer) { goto H_tim } else { goto H_idle };
         } else {
 A_lock:   Acquire("loop");                                  \* with self._lock:
 A_set:    handling := g;                              \* self._currently_handling = event
@@ -165,13 +174,13 @@ A_test:   if (rem > 0 \/ (Mutant # "no_qlen" /\ QLen > 0) \/ ~running) {
             call reduce(g, 0);                        \* event.handler is None: no resume
           };
 A_unl:    Release();
-          if (Timer) {
+          if (timer) {
 H_tim:      geHandler[g] := "timer";                  \* event.handler = <handler whose component has no resume()>
 H_low:      either { call reduce(g, T) } or { skip }; \* that handler may lower time_left
           };
         };
 H_idle: geHandler[g] := "idle";                       \* event.handler = the idle handler
-        if (Variant = "fallback") {
+        if (variant = "fallback") {
 I_lock:   Acquire("loop");                                  \* with event.lock:
 I_clr:    if (Mutant \notin {"clear_after_read", "clear_after_lock"}) { flag := 0 };   \* _continue.clear()
 I_unl:    Release();
@@ -241,9 +250,9 @@ F_mapp: pending := Append(pending, <<self, n>>); appended[self] := n;
 }
 } *)
 \* BEGIN TRANSLATION
-VARIABLES pc, lockOwner, lockDepth, running, handling, gen, timeLeft, 
-          geHandler, pending, batch, flag, dispatched, appended, returned, 
-          stack
+VARIABLES pc, variant, timer, quota, lockOwner, lockDepth, running, handling, 
+          gen, timeLeft, geHandler, pending, batch, flag, dispatched, 
+          appended, returned, stack
 
 (* define statement *)
 QLen == Len(pending) + Len(batch)
@@ -252,19 +261,23 @@ Foreign(e) == e[1] # "ge"
 Returned(e) == returned[e[1]] >= e[2]
 
 TimeoutOK == \A e \in Queued : Foreign(e) => ~Returned(e)
-AllDispatched == \A f \in Firers : /\ returned[f] = NFires
-                                   /\ \A k \in 1..NFires : <<f, k>> \in Range(dispatched)
+Quota(f) == IF f \in Firers THEN quota[f] ELSE 1
+AllDispatched == \A f \in Firers : /\ returned[f] = quota[f]
+                                   /\ \A k \in 1..quota[f] : <<f, k>> \in Range(dispatched)
 InFlight(f) == appended[f] > returned[f]
 
 VARIABLES ri, rv, ev, rem, tl, g, fade, n, h
 
-vars == << pc, lockOwner, lockDepth, running, handling, gen, timeLeft, 
-           geHandler, pending, batch, flag, dispatched, appended, returned, 
-           stack, ri, rv, ev, rem, tl, g, fade, n, h >>
+vars == << pc, variant, timer, quota, lockOwner, lockDepth, running, handling, 
+           gen, timeLeft, geHandler, pending, batch, flag, dispatched, 
+           appended, returned, stack, ri, rv, ev, rem, tl, g, fade, n, h >>
 
 ProcSet == {"loop"} \cup (Threads)
 
 Init == (* Global variables *)
+        /\ variant \in Variants
+        /\ timer \in Timers
+        /\ quota \in Quotas
         /\ lockOwner = "none"
         /\ lockDepth = 0
         /\ running = TRUE
@@ -301,15 +314,15 @@ R_acq(self) == /\ pc[self] = "R_acq"
                /\ IF ~(rv[self] >= 0 /\ (timeLeft[ri[self]] < 0 \/ timeLeft[ri[self]] > rv[self]))
                      THEN /\ pc' = [pc EXCEPT ![self] = "R_rel"]
                      ELSE /\ pc' = [pc EXCEPT ![self] = "R_set"]
-               /\ UNCHANGED << running, handling, gen, timeLeft, geHandler, 
-                               pending, batch, flag, dispatched, appended, 
-                               returned, stack, ri, rv, ev, rem, tl, g, fade, 
-                               n, h >>
+               /\ UNCHANGED << variant, timer, quota, running, handling, gen, 
+                               timeLeft, geHandler, pending, batch, flag, 
+                               dispatched, appended, returned, stack, ri, rv, 
+                               ev, rem, tl, g, fade, n, h >>
 
 R_set(self) == /\ pc[self] = "R_set"
                /\ IF Mutant = "resume_before_assign"
                      THEN /\ IF timeLeft[ri[self]] = 0 /\ geHandler[ri[self]] = "idle"
-                                THEN /\ flag' = (IF Variant = "fallback" THEN 1 ELSE flag + 1)
+                                THEN /\ flag' = (IF variant = "fallback" THEN 1 ELSE flag + 1)
                                 ELSE /\ TRUE
                                      /\ flag' = flag
                           /\ timeLeft' = [timeLeft EXCEPT ![ri[self]] = rv[self]]
@@ -317,27 +330,28 @@ R_set(self) == /\ pc[self] = "R_set"
                      ELSE /\ timeLeft' = [timeLeft EXCEPT ![ri[self]] = rv[self]]
                           /\ pc' = [pc EXCEPT ![self] = "R_hand"]
                           /\ flag' = flag
-               /\ UNCHANGED << lockOwner, lockDepth, running, handling, gen, 
-                               geHandler, pending, batch, dispatched, appended, 
-                               returned, stack, ri, rv, ev, rem, tl, g, fade, 
-                               n, h >>
+               /\ UNCHANGED << variant, timer, quota, lockOwner, lockDepth, 
+                               running, handling, gen, geHandler, pending, 
+                               batch, dispatched, appended, returned, stack, 
+                               ri, rv, ev, rem, tl, g, fade, n, h >>
 
 R_hand(self) == /\ pc[self] = "R_hand"
                 /\ IF timeLeft[ri[self]] = 0 /\ geHandler[ri[self]] = "idle"
                       THEN /\ pc' = [pc EXCEPT ![self] = "R_res"]
                       ELSE /\ pc' = [pc EXCEPT ![self] = "R_rel"]
-                /\ UNCHANGED << lockOwner, lockDepth, running, handling, gen, 
-                                timeLeft, geHandler, pending, batch, flag, 
-                                dispatched, appended, returned, stack, ri, rv, 
-                                ev, rem, tl, g, fade, n, h >>
+                /\ UNCHANGED << variant, timer, quota, lockOwner, lockDepth, 
+                                running, handling, gen, timeLeft, geHandler, 
+                                pending, batch, flag, dispatched, appended, 
+                                returned, stack, ri, rv, ev, rem, tl, g, fade, 
+                                n, h >>
 
 R_res(self) == /\ pc[self] = "R_res"
-               /\ flag' = (IF Variant = "fallback" THEN 1 ELSE flag + 1)
+               /\ flag' = (IF variant = "fallback" THEN 1 ELSE flag + 1)
                /\ pc' = [pc EXCEPT ![self] = "R_rel"]
-               /\ UNCHANGED << lockOwner, lockDepth, running, handling, gen, 
-                               timeLeft, geHandler, pending, batch, dispatched, 
-                               appended, returned, stack, ri, rv, ev, rem, tl, 
-                               g, fade, n, h >>
+               /\ UNCHANGED << variant, timer, quota, lockOwner, lockDepth, 
+                               running, handling, gen, timeLeft, geHandler, 
+                               pending, batch, dispatched, appended, returned, 
+                               stack, ri, rv, ev, rem, tl, g, fade, n, h >>
 
 R_rel(self) == /\ pc[self] = "R_rel"
                /\ /\ lockDepth' = lockDepth - 1
@@ -346,9 +360,10 @@ R_rel(self) == /\ pc[self] = "R_rel"
                /\ ri' = [ri EXCEPT ![self] = Head(stack[self]).ri]
                /\ rv' = [rv EXCEPT ![self] = Head(stack[self]).rv]
                /\ stack' = [stack EXCEPT ![self] = Tail(stack[self])]
-               /\ UNCHANGED << running, handling, gen, timeLeft, geHandler, 
-                               pending, batch, flag, dispatched, appended, 
-                               returned, ev, rem, tl, g, fade, n, h >>
+               /\ UNCHANGED << variant, timer, quota, running, handling, gen, 
+                               timeLeft, geHandler, pending, batch, flag, 
+                               dispatched, appended, returned, ev, rem, tl, g, 
+                               fade, n, h >>
 
 reduce(self) == R_acq(self) \/ R_set(self) \/ R_hand(self) \/ R_res(self)
                    \/ R_rel(self)
@@ -359,19 +374,19 @@ T_cond == /\ pc["loop"] = "T_cond"
                 ELSE /\ TRUE
                      /\ fade' = fade
           /\ pc' = [pc EXCEPT !["loop"] = "T_run"]
-          /\ UNCHANGED << lockOwner, lockDepth, running, handling, gen, 
-                          timeLeft, geHandler, pending, batch, flag, 
-                          dispatched, appended, returned, stack, ri, rv, ev, 
-                          rem, tl, g, n, h >>
+          /\ UNCHANGED << variant, timer, quota, lockOwner, lockDepth, running, 
+                          handling, gen, timeLeft, geHandler, pending, batch, 
+                          flag, dispatched, appended, returned, stack, ri, rv, 
+                          ev, rem, tl, g, n, h >>
 
 T_run == /\ pc["loop"] = "T_run"
          /\ IF running
                THEN /\ pc' = [pc EXCEPT !["loop"] = "T_fire"]
                ELSE /\ pc' = [pc EXCEPT !["loop"] = "T_len"]
-         /\ UNCHANGED << lockOwner, lockDepth, running, handling, gen, 
-                         timeLeft, geHandler, pending, batch, flag, dispatched, 
-                         appended, returned, stack, ri, rv, ev, rem, tl, g, 
-                         fade, n, h >>
+         /\ UNCHANGED << variant, timer, quota, lockOwner, lockDepth, running, 
+                         handling, gen, timeLeft, geHandler, pending, batch, 
+                         flag, dispatched, appended, returned, stack, ri, rv, 
+                         ev, rem, tl, g, fade, n, h >>
 
 T_fire == /\ pc["loop"] = "T_fire"
           /\ LET ng == 1 - gen IN
@@ -380,9 +395,9 @@ T_fire == /\ pc["loop"] = "T_fire"
                   /\ timeLeft' = [timeLeft EXCEPT ![ng] = -1]
                /\ pending' = Append(pending, <<"ge", ng>>)
           /\ pc' = [pc EXCEPT !["loop"] = "T_len"]
-          /\ UNCHANGED << lockOwner, lockDepth, running, handling, batch, flag, 
-                          dispatched, appended, returned, stack, ri, rv, ev, 
-                          rem, tl, g, fade, n, h >>
+          /\ UNCHANGED << variant, timer, quota, lockOwner, lockDepth, running, 
+                          handling, batch, flag, dispatched, appended, 
+                          returned, stack, ri, rv, ev, rem, tl, g, fade, n, h >>
 
 T_len == /\ pc["loop"] = "T_len"
          /\ IF QLen > 0
@@ -396,18 +411,19 @@ T_len == /\ pc["loop"] = "T_len"
                                           /\ pc' = [pc EXCEPT !["loop"] = "T_run"]
                                      ELSE /\ pc' = [pc EXCEPT !["loop"] = "Done"]
                                           /\ fade' = fade
-         /\ UNCHANGED << lockOwner, lockDepth, running, handling, gen, 
-                         timeLeft, geHandler, pending, batch, flag, dispatched, 
-                         appended, returned, stack, ri, rv, ev, rem, tl, g, n, 
-                         h >>
+         /\ UNCHANGED << variant, timer, quota, lockOwner, lockDepth, running, 
+                         handling, gen, timeLeft, geHandler, pending, batch, 
+                         flag, dispatched, appended, returned, stack, ri, rv, 
+                         ev, rem, tl, g, n, h >>
 
 D_snap == /\ pc["loop"] = "D_snap"
           /\ batch' = batch \o pending
           /\ pending' = <<>>
           /\ pc' = [pc EXCEPT !["loop"] = "D_pop"]
-          /\ UNCHANGED << lockOwner, lockDepth, running, handling, gen, 
-                          timeLeft, geHandler, flag, dispatched, appended, 
-                          returned, stack, ri, rv, ev, rem, tl, g, fade, n, h >>
+          /\ UNCHANGED << variant, timer, quota, lockOwner, lockDepth, running, 
+                          handling, gen, timeLeft, geHandler, flag, dispatched, 
+                          appended, returned, stack, ri, rv, ev, rem, tl, g, 
+                          fade, n, h >>
 
 D_pop == /\ pc["loop"] = "D_pop"
          /\ ev' = Head(batch)
@@ -422,34 +438,37 @@ D_pop == /\ pc["loop"] = "D_pop"
                           THEN /\ pc' = [pc EXCEPT !["loop"] = "M_set"]
                           ELSE /\ pc' = [pc EXCEPT !["loop"] = "A_lock"]
                     /\ UNCHANGED dispatched
-         /\ UNCHANGED << lockOwner, lockDepth, running, handling, gen, 
-                         timeLeft, geHandler, pending, flag, appended, 
-                         returned, stack, ri, rv, tl, fade, n, h >>
+         /\ UNCHANGED << variant, timer, quota, lockOwner, lockDepth, running, 
+                         handling, gen, timeLeft, geHandler, pending, flag, 
+                         appended, returned, stack, ri, rv, tl, fade, n, h >>
 
 D_set == /\ pc["loop"] = "D_set"
          /\ handling' = Ev
          /\ pc' = [pc EXCEPT !["loop"] = "D_clr"]
-         /\ UNCHANGED << lockOwner, lockDepth, running, gen, timeLeft, 
-                         geHandler, pending, batch, flag, dispatched, appended, 
-                         returned, stack, ri, rv, ev, rem, tl, g, fade, n, h >>
+         /\ UNCHANGED << variant, timer, quota, lockOwner, lockDepth, running, 
+                         gen, timeLeft, geHandler, pending, batch, flag, 
+                         dispatched, appended, returned, stack, ri, rv, ev, 
+                         rem, tl, g, fade, n, h >>
 
 H_idle == /\ pc["loop"] = "H_idle"
           /\ geHandler' = [geHandler EXCEPT ![g] = "idle"]
-          /\ IF Variant = "fallback"
+          /\ IF variant = "fallback"
                 THEN /\ pc' = [pc EXCEPT !["loop"] = "I_lock"]
                 ELSE /\ pc' = [pc EXCEPT !["loop"] = "P_rd"]
-          /\ UNCHANGED << lockOwner, lockDepth, running, handling, gen, 
-                          timeLeft, pending, batch, flag, dispatched, appended, 
-                          returned, stack, ri, rv, ev, rem, tl, g, fade, n, h >>
+          /\ UNCHANGED << variant, timer, quota, lockOwner, lockDepth, running, 
+                          handling, gen, timeLeft, pending, batch, flag, 
+                          dispatched, appended, returned, stack, ri, rv, ev, 
+                          rem, tl, g, fade, n, h >>
 
 I_lock == /\ pc["loop"] = "I_lock"
           /\ lockOwner \in {"none", "loop"}
           /\ /\ lockDepth' = lockDepth + 1
              /\ lockOwner' = "loop"
           /\ pc' = [pc EXCEPT !["loop"] = "I_clr"]
-          /\ UNCHANGED << running, handling, gen, timeLeft, geHandler, pending, 
-                          batch, flag, dispatched, appended, returned, stack, 
-                          ri, rv, ev, rem, tl, g, fade, n, h >>
+          /\ UNCHANGED << variant, timer, quota, running, handling, gen, 
+                          timeLeft, geHandler, pending, batch, flag, 
+                          dispatched, appended, returned, stack, ri, rv, ev, 
+                          rem, tl, g, fade, n, h >>
 
 I_clr == /\ pc["loop"] = "I_clr"
          /\ IF Mutant \notin {"clear_after_read", "clear_after_lock"}
@@ -457,10 +476,10 @@ I_clr == /\ pc["loop"] = "I_clr"
                ELSE /\ TRUE
                     /\ flag' = flag
          /\ pc' = [pc EXCEPT !["loop"] = "I_unl"]
-         /\ UNCHANGED << lockOwner, lockDepth, running, handling, gen, 
-                         timeLeft, geHandler, pending, batch, dispatched, 
-                         appended, returned, stack, ri, rv, ev, rem, tl, g, 
-                         fade, n, h >>
+         /\ UNCHANGED << variant, timer, quota, lockOwner, lockDepth, running, 
+                         handling, gen, timeLeft, geHandler, pending, batch, 
+                         dispatched, appended, returned, stack, ri, rv, ev, 
+                         rem, tl, g, fade, n, h >>
 
 I_unl == /\ pc["loop"] = "I_unl"
          /\ /\ lockDepth' = lockDepth - 1
@@ -468,35 +487,36 @@ I_unl == /\ pc["loop"] = "I_unl"
          /\ IF Mutant = "clear_after_lock"
                THEN /\ pc' = [pc EXCEPT !["loop"] = "I_mclr"]
                ELSE /\ pc' = [pc EXCEPT !["loop"] = "I_rd1"]
-         /\ UNCHANGED << running, handling, gen, timeLeft, geHandler, pending, 
-                         batch, flag, dispatched, appended, returned, stack, 
-                         ri, rv, ev, rem, tl, g, fade, n, h >>
+         /\ UNCHANGED << variant, timer, quota, running, handling, gen, 
+                         timeLeft, geHandler, pending, batch, flag, dispatched, 
+                         appended, returned, stack, ri, rv, ev, rem, tl, g, 
+                         fade, n, h >>
 
 I_mclr == /\ pc["loop"] = "I_mclr"
           /\ flag' = 0
           /\ pc' = [pc EXCEPT !["loop"] = "I_rd1"]
-          /\ UNCHANGED << lockOwner, lockDepth, running, handling, gen, 
-                          timeLeft, geHandler, pending, batch, dispatched, 
-                          appended, returned, stack, ri, rv, ev, rem, tl, g, 
-                          fade, n, h >>
+          /\ UNCHANGED << variant, timer, quota, lockOwner, lockDepth, running, 
+                          handling, gen, timeLeft, geHandler, pending, batch, 
+                          dispatched, appended, returned, stack, ri, rv, ev, 
+                          rem, tl, g, fade, n, h >>
 
 I_rd1 == /\ pc["loop"] = "I_rd1"
          /\ tl' = timeLeft[g]
          /\ IF tl' > 0
                THEN /\ pc' = [pc EXCEPT !["loop"] = "I_rd1b"]
                ELSE /\ pc' = [pc EXCEPT !["loop"] = "I_rd2"]
-         /\ UNCHANGED << lockOwner, lockDepth, running, handling, gen, 
-                         timeLeft, geHandler, pending, batch, flag, dispatched, 
-                         appended, returned, stack, ri, rv, ev, rem, g, fade, 
-                         n, h >>
+         /\ UNCHANGED << variant, timer, quota, lockOwner, lockDepth, running, 
+                         handling, gen, timeLeft, geHandler, pending, batch, 
+                         flag, dispatched, appended, returned, stack, ri, rv, 
+                         ev, rem, g, fade, n, h >>
 
 I_rd1b == /\ pc["loop"] = "I_rd1b"
           /\ tl' = timeLeft[g]
           /\ pc' = [pc EXCEPT !["loop"] = "I_twait"]
-          /\ UNCHANGED << lockOwner, lockDepth, running, handling, gen, 
-                          timeLeft, geHandler, pending, batch, flag, 
-                          dispatched, appended, returned, stack, ri, rv, ev, 
-                          rem, g, fade, n, h >>
+          /\ UNCHANGED << variant, timer, quota, lockOwner, lockDepth, running, 
+                          handling, gen, timeLeft, geHandler, pending, batch, 
+                          flag, dispatched, appended, returned, stack, ri, rv, 
+                          ev, rem, g, fade, n, h >>
 
 I_twait == /\ pc["loop"] = "I_twait"
            /\ tl = 0 \/ flag > 0 \/ TimeoutOK
@@ -508,10 +528,10 @@ I_twait == /\ pc["loop"] = "I_twait"
                                                          rv        |->  rv["loop"] ] >>
                                                      \o stack["loop"]]
            /\ pc' = [pc EXCEPT !["loop"] = "R_acq"]
-           /\ UNCHANGED << lockOwner, lockDepth, running, handling, gen, 
-                           timeLeft, geHandler, pending, batch, flag, 
-                           dispatched, appended, returned, ev, rem, tl, g, 
-                           fade, n, h >>
+           /\ UNCHANGED << variant, timer, quota, lockOwner, lockDepth, 
+                           running, handling, gen, timeLeft, geHandler, 
+                           pending, batch, flag, dispatched, appended, 
+                           returned, ev, rem, tl, g, fade, n, h >>
 
 I_rd2 == /\ pc["loop"] = "I_rd2"
          /\ IF timeLeft[g] < 0
@@ -519,58 +539,60 @@ I_rd2 == /\ pc["loop"] = "I_rd2"
                           THEN /\ pc' = [pc EXCEPT !["loop"] = "I_mclr2"]
                           ELSE /\ pc' = [pc EXCEPT !["loop"] = "I_wait"]
                ELSE /\ pc' = [pc EXCEPT !["loop"] = "D_clr"]
-         /\ UNCHANGED << lockOwner, lockDepth, running, handling, gen, 
-                         timeLeft, geHandler, pending, batch, flag, dispatched, 
-                         appended, returned, stack, ri, rv, ev, rem, tl, g, 
-                         fade, n, h >>
+         /\ UNCHANGED << variant, timer, quota, lockOwner, lockDepth, running, 
+                         handling, gen, timeLeft, geHandler, pending, batch, 
+                         flag, dispatched, appended, returned, stack, ri, rv, 
+                         ev, rem, tl, g, fade, n, h >>
 
 I_wait == /\ pc["loop"] = "I_wait"
           /\ flag > 0
           /\ pc' = [pc EXCEPT !["loop"] = "I_rd2"]
-          /\ UNCHANGED << lockOwner, lockDepth, running, handling, gen, 
-                          timeLeft, geHandler, pending, batch, flag, 
-                          dispatched, appended, returned, stack, ri, rv, ev, 
-                          rem, tl, g, fade, n, h >>
+          /\ UNCHANGED << variant, timer, quota, lockOwner, lockDepth, running, 
+                          handling, gen, timeLeft, geHandler, pending, batch, 
+                          flag, dispatched, appended, returned, stack, ri, rv, 
+                          ev, rem, tl, g, fade, n, h >>
 
 I_mclr2 == /\ pc["loop"] = "I_mclr2"
            /\ flag' = 0
            /\ pc' = [pc EXCEPT !["loop"] = "I_wait"]
-           /\ UNCHANGED << lockOwner, lockDepth, running, handling, gen, 
-                           timeLeft, geHandler, pending, batch, dispatched, 
-                           appended, returned, stack, ri, rv, ev, rem, tl, g, 
-                           fade, n, h >>
+           /\ UNCHANGED << variant, timer, quota, lockOwner, lockDepth, 
+                           running, handling, gen, timeLeft, geHandler, 
+                           pending, batch, dispatched, appended, returned, 
+                           stack, ri, rv, ev, rem, tl, g, fade, n, h >>
 
 P_rd == /\ pc["loop"] = "P_rd"
         /\ tl' = timeLeft[g]
         /\ pc' = [pc EXCEPT !["loop"] = "P_sel"]
-        /\ UNCHANGED << lockOwner, lockDepth, running, handling, gen, timeLeft, 
-                        geHandler, pending, batch, flag, dispatched, appended, 
-                        returned, stack, ri, rv, ev, rem, g, fade, n, h >>
+        /\ UNCHANGED << variant, timer, quota, lockOwner, lockDepth, running, 
+                        handling, gen, timeLeft, geHandler, pending, batch, 
+                        flag, dispatched, appended, returned, stack, ri, rv, 
+                        ev, rem, g, fade, n, h >>
 
 P_sel == /\ pc["loop"] = "P_sel"
          /\ tl = 0 \/ flag > 0 \/ (tl > 0 /\ TimeoutOK)
          /\ IF flag > 0
                THEN /\ pc' = [pc EXCEPT !["loop"] = "P_drain"]
                ELSE /\ pc' = [pc EXCEPT !["loop"] = "D_clr"]
-         /\ UNCHANGED << lockOwner, lockDepth, running, handling, gen, 
-                         timeLeft, geHandler, pending, batch, flag, dispatched, 
-                         appended, returned, stack, ri, rv, ev, rem, tl, g, 
-                         fade, n, h >>
+         /\ UNCHANGED << variant, timer, quota, lockOwner, lockDepth, running, 
+                         handling, gen, timeLeft, geHandler, pending, batch, 
+                         flag, dispatched, appended, returned, stack, ri, rv, 
+                         ev, rem, tl, g, fade, n, h >>
 
 P_drain == /\ pc["loop"] = "P_drain"
            /\ flag' = flag - 1
            /\ pc' = [pc EXCEPT !["loop"] = "D_clr"]
-           /\ UNCHANGED << lockOwner, lockDepth, running, handling, gen, 
-                           timeLeft, geHandler, pending, batch, dispatched, 
-                           appended, returned, stack, ri, rv, ev, rem, tl, g, 
-                           fade, n, h >>
+           /\ UNCHANGED << variant, timer, quota, lockOwner, lockDepth, 
+                           running, handling, gen, timeLeft, geHandler, 
+                           pending, batch, dispatched, appended, returned, 
+                           stack, ri, rv, ev, rem, tl, g, fade, n, h >>
 
 M_set == /\ pc["loop"] = "M_set"
          /\ handling' = g
          /\ pc' = [pc EXCEPT !["loop"] = "M_test"]
-         /\ UNCHANGED << lockOwner, lockDepth, running, gen, timeLeft, 
-                         geHandler, pending, batch, flag, dispatched, appended, 
-                         returned, stack, ri, rv, ev, rem, tl, g, fade, n, h >>
+         /\ UNCHANGED << variant, timer, quota, lockOwner, lockDepth, running, 
+                         gen, timeLeft, geHandler, pending, batch, flag, 
+                         dispatched, appended, returned, stack, ri, rv, ev, 
+                         rem, tl, g, fade, n, h >>
 
 M_test == /\ pc["loop"] = "M_test"
           /\ IF rem > 0 \/ QLen > 0 \/ ~running
@@ -584,35 +606,37 @@ M_test == /\ pc["loop"] = "M_test"
                      /\ pc' = [pc EXCEPT !["loop"] = "R_acq"]
                 ELSE /\ pc' = [pc EXCEPT !["loop"] = "M_end"]
                      /\ UNCHANGED << stack, ri, rv >>
-          /\ UNCHANGED << lockOwner, lockDepth, running, handling, gen, 
-                          timeLeft, geHandler, pending, batch, flag, 
-                          dispatched, appended, returned, ev, rem, tl, g, fade, 
-                          n, h >>
+          /\ UNCHANGED << variant, timer, quota, lockOwner, lockDepth, running, 
+                          handling, gen, timeLeft, geHandler, pending, batch, 
+                          flag, dispatched, appended, returned, ev, rem, tl, g, 
+                          fade, n, h >>
 
 M_end == /\ pc["loop"] = "M_end"
-         /\ IF Timer
+         /\ IF timer
                THEN /\ pc' = [pc EXCEPT !["loop"] = "H_tim"]
                ELSE /\ pc' = [pc EXCEPT !["loop"] = "H_idle"]
-         /\ UNCHANGED << lockOwner, lockDepth, running, handling, gen, 
-                         timeLeft, geHandler, pending, batch, flag, dispatched, 
-                         appended, returned, stack, ri, rv, ev, rem, tl, g, 
-                         fade, n, h >>
+         /\ UNCHANGED << variant, timer, quota, lockOwner, lockDepth, running, 
+                         handling, gen, timeLeft, geHandler, pending, batch, 
+                         flag, dispatched, appended, returned, stack, ri, rv, 
+                         ev, rem, tl, g, fade, n, h >>
 
 A_lock == /\ pc["loop"] = "A_lock"
           /\ lockOwner \in {"none", "loop"}
           /\ /\ lockDepth' = lockDepth + 1
              /\ lockOwner' = "loop"
           /\ pc' = [pc EXCEPT !["loop"] = "A_set"]
-          /\ UNCHANGED << running, handling, gen, timeLeft, geHandler, pending, 
-                          batch, flag, dispatched, appended, returned, stack, 
-                          ri, rv, ev, rem, tl, g, fade, n, h >>
+          /\ UNCHANGED << variant, timer, quota, running, handling, gen, 
+                          timeLeft, geHandler, pending, batch, flag, 
+                          dispatched, appended, returned, stack, ri, rv, ev, 
+                          rem, tl, g, fade, n, h >>
 
 A_set == /\ pc["loop"] = "A_set"
          /\ handling' = g
          /\ pc' = [pc EXCEPT !["loop"] = "A_test"]
-         /\ UNCHANGED << lockOwner, lockDepth, running, gen, timeLeft, 
-                         geHandler, pending, batch, flag, dispatched, appended, 
-                         returned, stack, ri, rv, ev, rem, tl, g, fade, n, h >>
+         /\ UNCHANGED << variant, timer, quota, lockOwner, lockDepth, running, 
+                         gen, timeLeft, geHandler, pending, batch, flag, 
+                         dispatched, appended, returned, stack, ri, rv, ev, 
+                         rem, tl, g, fade, n, h >>
 
 A_test == /\ pc["loop"] = "A_test"
           /\ IF rem > 0 \/ (Mutant # "no_qlen" /\ QLen > 0) \/ ~running
@@ -626,27 +650,29 @@ A_test == /\ pc["loop"] = "A_test"
                      /\ pc' = [pc EXCEPT !["loop"] = "R_acq"]
                 ELSE /\ pc' = [pc EXCEPT !["loop"] = "A_unl"]
                      /\ UNCHANGED << stack, ri, rv >>
-          /\ UNCHANGED << lockOwner, lockDepth, running, handling, gen, 
-                          timeLeft, geHandler, pending, batch, flag, 
-                          dispatched, appended, returned, ev, rem, tl, g, fade, 
-                          n, h >>
+          /\ UNCHANGED << variant, timer, quota, lockOwner, lockDepth, running, 
+                          handling, gen, timeLeft, geHandler, pending, batch, 
+                          flag, dispatched, appended, returned, ev, rem, tl, g, 
+                          fade, n, h >>
 
 A_unl == /\ pc["loop"] = "A_unl"
          /\ /\ lockDepth' = lockDepth - 1
             /\ lockOwner' = (IF lockDepth = 1 THEN "none" ELSE lockOwner)
-         /\ IF Timer
+         /\ IF timer
                THEN /\ pc' = [pc EXCEPT !["loop"] = "H_tim"]
                ELSE /\ pc' = [pc EXCEPT !["loop"] = "H_idle"]
-         /\ UNCHANGED << running, handling, gen, timeLeft, geHandler, pending, 
-                         batch, flag, dispatched, appended, returned, stack, 
-                         ri, rv, ev, rem, tl, g, fade, n, h >>
+         /\ UNCHANGED << variant, timer, quota, running, handling, gen, 
+                         timeLeft, geHandler, pending, batch, flag, dispatched, 
+                         appended, returned, stack, ri, rv, ev, rem, tl, g, 
+                         fade, n, h >>
 
 H_tim == /\ pc["loop"] = "H_tim"
          /\ geHandler' = [geHandler EXCEPT ![g] = "timer"]
          /\ pc' = [pc EXCEPT !["loop"] = "H_low"]
-         /\ UNCHANGED << lockOwner, lockDepth, running, handling, gen, 
-                         timeLeft, pending, batch, flag, dispatched, appended, 
-                         returned, stack, ri, rv, ev, rem, tl, g, fade, n, h >>
+         /\ UNCHANGED << variant, timer, quota, lockOwner, lockDepth, running, 
+                         handling, gen, timeLeft, pending, batch, flag, 
+                         dispatched, appended, returned, stack, ri, rv, ev, 
+                         rem, tl, g, fade, n, h >>
 
 H_low == /\ pc["loop"] = "H_low"
          /\ \/ /\ /\ ri' = [ri EXCEPT !["loop"] = g]
@@ -660,9 +686,10 @@ H_low == /\ pc["loop"] = "H_low"
             \/ /\ TRUE
                /\ pc' = [pc EXCEPT !["loop"] = "H_idle"]
                /\ UNCHANGED <<stack, ri, rv>>
-         /\ UNCHANGED << lockOwner, lockDepth, running, handling, gen, 
-                         timeLeft, geHandler, pending, batch, flag, dispatched, 
-                         appended, returned, ev, rem, tl, g, fade, n, h >>
+         /\ UNCHANGED << variant, timer, quota, lockOwner, lockDepth, running, 
+                         handling, gen, timeLeft, geHandler, pending, batch, 
+                         flag, dispatched, appended, returned, ev, rem, tl, g, 
+                         fade, n, h >>
 
 D_clr == /\ pc["loop"] = "D_clr"
          /\ handling' = None
@@ -677,9 +704,10 @@ D_clr == /\ pc["loop"] = "D_clr"
                                           /\ pc' = [pc EXCEPT !["loop"] = "T_run"]
                                      ELSE /\ pc' = [pc EXCEPT !["loop"] = "Done"]
                                           /\ fade' = fade
-         /\ UNCHANGED << lockOwner, lockDepth, running, gen, timeLeft, 
-                         geHandler, pending, batch, flag, dispatched, appended, 
-                         returned, stack, ri, rv, ev, rem, tl, g, n, h >>
+         /\ UNCHANGED << variant, timer, quota, lockOwner, lockDepth, running, 
+                         gen, timeLeft, geHandler, pending, batch, flag, 
+                         dispatched, appended, returned, stack, ri, rv, ev, 
+                         rem, tl, g, n, h >>
 
 loop == T_cond \/ T_run \/ T_fire \/ T_len \/ D_snap \/ D_pop \/ D_set
            \/ H_idle \/ I_lock \/ I_clr \/ I_unl \/ I_mclr \/ I_rd1
@@ -701,28 +729,29 @@ F_next(self) == /\ pc[self] = "F_next"
                                  ELSE /\ pc' = [pc EXCEPT ![self] = "F_lock"]
                       ELSE /\ pc' = [pc EXCEPT ![self] = "Done"]
                            /\ UNCHANGED << pending, appended, n >>
-                /\ UNCHANGED << lockOwner, lockDepth, running, handling, gen, 
-                                timeLeft, geHandler, batch, flag, dispatched, 
-                                returned, stack, ri, rv, ev, rem, tl, g, fade, 
-                                h >>
+                /\ UNCHANGED << variant, timer, quota, lockOwner, lockDepth, 
+                                running, handling, gen, timeLeft, geHandler, 
+                                batch, flag, dispatched, returned, stack, ri, 
+                                rv, ev, rem, tl, g, fade, h >>
 
 F_lock(self) == /\ pc[self] = "F_lock"
                 /\ lockOwner \in {"none", self}
                 /\ /\ lockDepth' = lockDepth + 1
                    /\ lockOwner' = self
                 /\ pc' = [pc EXCEPT ![self] = "F_rdh"]
-                /\ UNCHANGED << running, handling, gen, timeLeft, geHandler, 
-                                pending, batch, flag, dispatched, appended, 
-                                returned, stack, ri, rv, ev, rem, tl, g, fade, 
-                                n, h >>
+                /\ UNCHANGED << variant, timer, quota, running, handling, gen, 
+                                timeLeft, geHandler, pending, batch, flag, 
+                                dispatched, appended, returned, stack, ri, rv, 
+                                ev, rem, tl, g, fade, n, h >>
 
 F_rdh(self) == /\ pc[self] = "F_rdh"
                /\ h' = [h EXCEPT ![self] = handling]
                /\ pc' = [pc EXCEPT ![self] = "F_app"]
-               /\ UNCHANGED << lockOwner, lockDepth, running, handling, gen, 
-                               timeLeft, geHandler, pending, batch, flag, 
-                               dispatched, appended, returned, stack, ri, rv, 
-                               ev, rem, tl, g, fade, n >>
+               /\ UNCHANGED << variant, timer, quota, lockOwner, lockDepth, 
+                               running, handling, gen, timeLeft, geHandler, 
+                               pending, batch, flag, dispatched, appended, 
+                               returned, stack, ri, rv, ev, rem, tl, g, fade, 
+                               n >>
 
 F_app(self) == /\ pc[self] = "F_app"
                /\ IF Mutant \notin {"append_before_lock", "append_after_lock"}
@@ -741,9 +770,10 @@ F_app(self) == /\ pc[self] = "F_app"
                           /\ pc' = [pc EXCEPT ![self] = "R_acq"]
                      ELSE /\ pc' = [pc EXCEPT ![self] = "F_unl"]
                           /\ UNCHANGED << stack, ri, rv >>
-               /\ UNCHANGED << lockOwner, lockDepth, running, handling, gen, 
-                               timeLeft, geHandler, batch, flag, dispatched, 
-                               returned, ev, rem, tl, g, fade, n, h >>
+               /\ UNCHANGED << variant, timer, quota, lockOwner, lockDepth, 
+                               running, handling, gen, timeLeft, geHandler, 
+                               batch, flag, dispatched, returned, ev, rem, tl, 
+                               g, fade, n, h >>
 
 F_unl(self) == /\ pc[self] = "F_unl"
                /\ /\ lockDepth' = lockDepth - 1
@@ -754,26 +784,28 @@ F_unl(self) == /\ pc[self] = "F_unl"
                           /\ UNCHANGED returned
                      ELSE /\ returned' = [returned EXCEPT ![self] = n[self]]
                           /\ pc' = [pc EXCEPT ![self] = "F_next"]
-               /\ UNCHANGED << running, handling, gen, timeLeft, geHandler, 
-                               pending, batch, flag, dispatched, appended, 
-                               stack, ri, rv, ev, rem, tl, g, fade, n >>
+               /\ UNCHANGED << variant, timer, quota, running, handling, gen, 
+                               timeLeft, geHandler, pending, batch, flag, 
+                               dispatched, appended, stack, ri, rv, ev, rem, 
+                               tl, g, fade, n >>
 
 F_mapp(self) == /\ pc[self] = "F_mapp"
                 /\ pending' = Append(pending, <<self, n[self]>>)
                 /\ appended' = [appended EXCEPT ![self] = n[self]]
                 /\ returned' = [returned EXCEPT ![self] = n[self]]
                 /\ pc' = [pc EXCEPT ![self] = "F_next"]
-                /\ UNCHANGED << lockOwner, lockDepth, running, handling, gen, 
-                                timeLeft, geHandler, batch, flag, dispatched, 
-                                stack, ri, rv, ev, rem, tl, g, fade, n, h >>
+                /\ UNCHANGED << variant, timer, quota, lockOwner, lockDepth, 
+                                running, handling, gen, timeLeft, geHandler, 
+                                batch, flag, dispatched, stack, ri, rv, ev, 
+                                rem, tl, g, fade, n, h >>
 
 S_stop(self) == /\ pc[self] = "S_stop"
                 /\ running' = FALSE
                 /\ pc' = [pc EXCEPT ![self] = "F_lock"]
-                /\ UNCHANGED << lockOwner, lockDepth, handling, gen, timeLeft, 
-                                geHandler, pending, batch, flag, dispatched, 
-                                appended, returned, stack, ri, rv, ev, rem, tl, 
-                                g, fade, n, h >>
+                /\ UNCHANGED << variant, timer, quota, lockOwner, lockDepth, 
+                                handling, gen, timeLeft, geHandler, pending, 
+                                batch, flag, dispatched, appended, returned, 
+                                stack, ri, rv, ev, rem, tl, g, fade, n, h >>
 
 firer(self) == F_next(self) \/ F_lock(self) \/ F_rdh(self) \/ F_app(self)
                   \/ F_unl(self) \/ F_mapp(self) \/ S_stop(self)
@@ -803,6 +835,9 @@ Termination == <>(\A self \in ProcSet: pc[self] = "Done")
    "loop at T_cond, nothing queued" of the PlusCal Init is never reached by a
    running manager before its first wake-up. *)
 InitIdle ==
+        /\ variant \in Variants
+        /\ timer \in Timers
+        /\ quota \in Quotas
         /\ lockOwner = "none"
         /\ lockDepth = 0
         /\ running = TRUE
@@ -827,7 +862,7 @@ InitIdle ==
         /\ h = [self \in Threads |-> None]
         /\ stack = [self \in ProcSet |-> << >>]
         /\ pc = [self \in ProcSet |-> IF self = "loop"
-                                        THEN (IF Variant = "fallback" THEN "I_wait" ELSE "P_sel")
+                                        THEN (IF variant = "fallback" THEN "I_wait" ELSE "P_sel")
                                         ELSE "F_next"]
 
 Fairness == /\ WF_vars(loop) /\ WF_vars(reduce("loop"))
@@ -851,7 +886,7 @@ PerThreadOrder == \A i, j \in 1..Len(dispatched) :
                     (i < j /\ dispatched[i][1] = dispatched[j][1]) => dispatched[i][2] < dispatched[j][2]
 OnlyFired == \A i \in 1..Len(dispatched) : appended[dispatched[i][1]] >= dispatched[i][2]
 NothingLost == (\A p \in ProcSet : pc[p] = "Done") =>
-                 \A f \in Firers : \A k \in 1..NFires : <<f, k>> \in Range(dispatched)
+                 \A f \in Firers : \A k \in 1..quota[f] : <<f, k>> \in Range(dispatched)
 
 (* two generate_events slots suffice: no thread still refers to the slot being reused *)
 NoStaleClash == pc["loop"] = "T_fire" => \A f \in Threads : h[f] # 1 - gen
@@ -861,13 +896,14 @@ TypeOK == /\ lockOwner \in {"none", "loop"} \cup Threads
           /\ running \in BOOLEAN /\ handling \in {None, Ev, 0, 1} /\ gen \in {0, 1}
           /\ timeLeft \in [{0, 1} -> {-1, 0, T}]
           /\ geHandler \in [{0, 1} -> {"none", "timer", "idle"}]
-          /\ flag \in 0..(Cardinality(Firers) * NFires + 2)
-          /\ (Variant = "fallback" => flag \in {0, 1})
+          /\ flag \in 0..(Cardinality(Firers) * MaxFires + 2)
+          /\ (variant = "fallback" => flag \in {0, 1})
+          /\ variant \in Variants /\ timer \in Timers /\ quota \in Quotas
 
 (* liveness: under weak fairness of every thread (strong for the lock), with
    the timeouts restricted by TimeoutOK, every fired event is dispatched, and
    stop() from a foreign thread ends run() *)
-Delivery == \A f \in Firers : \A k \in 1..NFires :
+Delivery == \A f \in Firers : \A k \in 1..MaxFires :
               (appended[f] >= k) ~> (<<f, k>> \in Range(dispatched))
 LoopEnds == WithStop => <>(pc["loop"] = "Done")
 
